@@ -8,8 +8,8 @@ echo "== applied diff matches patch.diff?"; git diff > /tmp/seed/$id/.cur.diff; 
 echo "== build"; cargo build --offline --features cli -j 6 2>&1 | tail -1
 echo "== tests (changed tree)"; python3 /verif/tools/baseline_check.py $wt
 echo "== demo on changed tree (expect non-zero)"; bash $out/demo/run.sh $wt >/tmp/seed/$id/.demo_changed.log 2>&1; echo "exit=$?"
-git stash -q
+git diff > /tmp/seed/$id/.wt.diff; git checkout -q -- .
 echo "== demo on unchanged tree (expect 0)"; bash $out/demo/run.sh $wt >/tmp/seed/$id/.demo_unchanged.log 2>&1; echo "exit=$?"
-git stash pop -q
+git apply /tmp/seed/$id/.wt.diff
 echo "== done"
 } > $out/verify.log 2>&1
